@@ -1,7 +1,7 @@
 (* ComposeIdx.v — the PGMIndex contract (C01 + C02) packaged for composition with the containers
    built on top of it (mapped, multidimensional, dynamic, C wrapper, bucketing). *)
 Require Import Base Fp PlaModel PlaSpec GenLeaf IndexModel IndexProofs MappedQueries IdxFed IdxSeg IdxBlock IdxLevel
-  IdxSearch0 IdxRoute IdxChain IdxMain IdxBeyond IdxFuel Reject.
+  IdxSearch0 IdxRoute IdxChain IdxMain IdxBeyond IdxFuel IdxGapMain Reject.
 From Coq Require Import ZifyBool.
 Local Open Scope Z_scope.
 
@@ -12,9 +12,9 @@ Record idx_ok (c : cfg) : Prop := mkIdxOk {
   io_eps64 : c_eps c + 2 ^ 32 < 2 ^ 64 - 1;
   io_rec0 : 0 <= c_epsrec c;
   io_rec64 : c_epsrec c + 2 ^ 32 < 2 ^ 64 - 1;
-  io_par : 1 <= c_par c;
-  (* EpsilonRecursive = 0 (one level, binary search) or the linear-scan routing of segment_for_key *)
-  io_scan : c_epsrec c = 0 \/ (c_epsrec c <=? pgm_linear_search_threshold (sizeof_segment c)) = true
+  io_par : 1 <= c_par c
+  (* no condition on the routing of segment_for_key: IdxGapMain.C02_search covers the linear scan and
+     the binary search alike *)
 }.
 
 (* the floating-point interface (IdxChain.float_ok), for every input *)
@@ -29,15 +29,27 @@ Record data_ok (c : cfg) (data : list Z) : Prop := mkDataOk {
   do_n32 : zlen data < 2 ^ 32
 }.
 
-Lemma scan_of_idx_ok c : idx_ok c ->
-  (c_epsrec c <=? pgm_linear_search_threshold (sizeof_segment c)) = true.
+
+(* C01 + C02 at one query, with the floating-point interface asked only at the evaluated key, in its
+   weakest form float_ok_cap (IdxChain.v): implied by float_ok, and provable for Floating = float
+   (FloatOkCap.v) where float_ok is not *)
+Theorem search_contract_at_cap c data ix q :
+  idx_ok c -> data_ok c data -> build c data = Ok ix -> zlen (ix_segments ix) < 2 ^ 32 ->
+  q < sentinel c -> float_ok_cap c data (Z.max (hd 0 data) q) ->
+  exists a, search c ix q = Ok a /\
+    0 <= a_lo a /\ a_lo a <= lb data q /\ lb data q <= a_hi a /\ a_hi a <= zlen data /\
+    (In q data -> lb data q < a_hi a) /\ a_hi a - a_lo a <= 2 * c_eps c + 2 /\ a_lo a <= a_pos a.
 Proof.
-  intros H. destruct (io_scan c H) as [E|E]; [|exact E]. rewrite E.
-  pose proof (io_bits c H) as Hb. unfold pgm_linear_search_threshold, sizeof_segment.
-  assert (0 <= kbits (c_kt c) / 8) by (apply Z.div_pos; lia).
-  assert (0 <= Z.quot (8 * 64) (kbits (c_kt c) / 8 + (if c_fdouble c then 8 else 4) + 4)).
-  { apply Z.quot_pos; [lia|]. destruct (c_fdouble c); lia. }
-  lia.
+  intros Hc Hd Hb Hs32 Hq Hfl.
+  destruct Hc as [Hbits Heps Heps64 Hrec0 Hrec64 Hpar]. destruct Hd as [Hne Hs Hkt Hlast Hn32].
+  assert (Hn64 : zlen data + c_eps c < 2 ^ 64 - 1) by lia.
+  destruct (C02_search_cap c data ix Hbits Heps Hrec0 Hrec64 Hpar Hne Hs Hkt Hlast Hn32 Hn64 Hb Hs32 q Hq Hfl)
+    as (a & Es & H1 & H2 & H3 & H4 & H5 & H6).
+  exists a. split; [exact Es|]. repeat (split; [assumption|]). split; [|split; assumption].
+  intros Hin.
+  destruct (C01_search_cap c data ix Hbits Heps Hrec0 Hrec64 Hpar Hne Hs Hkt Hlast Hn32 Hn64 Hb Hs32 q Hin Hfl)
+    as (a' & Es' & _ & _ & H3' & _).
+  rewrite Es in Es'. injection Es' as <-. exact H3'.
 Qed.
 
 (* C01 + C02 at one query, with the floating-point interface asked only at the evaluated key *)
@@ -48,16 +60,8 @@ Theorem search_contract_at c data ix q :
     0 <= a_lo a /\ a_lo a <= lb data q /\ lb data q <= a_hi a /\ a_hi a <= zlen data /\
     (In q data -> lb data q < a_hi a) /\ a_hi a - a_lo a <= 2 * c_eps c + 2 /\ a_lo a <= a_pos a.
 Proof.
-  intros Hc Hd Hb Hs32 Hq Hfl. pose proof (scan_of_idx_ok c Hc) as Hscan.
-  destruct Hc as [Hbits Heps Heps64 Hrec0 Hrec64 Hpar _]. destruct Hd as [Hne Hs Hkt Hlast Hn32].
-  assert (Hn64 : zlen data + c_eps c < 2 ^ 64 - 1) by lia.
-  destruct (C02_search_scan c data ix Hbits Heps Hrec0 Hrec64 Hpar Hne Hs Hkt Hlast Hn32 Hn64 Hb Hs32 Hscan q Hq Hfl)
-    as (a & Es & H1 & H2 & H3 & H4 & H5 & H6).
-  exists a. split; [exact Es|]. repeat (split; [assumption|]). split; [|split; assumption].
-  intros Hin.
-  destruct (C01_search c data ix Hbits Heps Hrec0 Hrec64 Hpar Hne Hs Hkt Hlast Hn32 Hn64 Hb Hs32 q Hin Hfl)
-    as (a' & Es' & _ & _ & H3' & _).
-  rewrite Es in Es'. injection Es' as <-. exact H3'.
+  intros Hc Hd Hb Hs32 Hq Hfl.
+  exact (search_contract_at_cap c data ix q Hc Hd Hb Hs32 Hq (float_ok_cap_of _ _ _ Hfl)).
 Qed.
 
 Theorem search_contract c data ix q :
@@ -69,6 +73,27 @@ Theorem search_contract c data ix q :
 Proof.
   intros Hc Hf Hd Hb Hs32 Hq.
   destruct (search_contract_at c data ix q Hc Hd Hb Hs32 Hq (Hf _ _)) as (a & Es & H).
+  exists a. split; [exact Es|]. tauto.
+Qed.
+
+(* the floating-point interface on the inputs the constructor accepts: implied by float_ok_all, and
+   what FloatOkAll.float_ok_double establishes for Floating = double (float_ok_all itself is refutable
+   for Floating = float: FloatOkAll.cx_not_float_ok; for float use search_contract_at_cap with
+   FloatOkCap.float_ok_cap_float, as ComposeFloat32.index_contract_float does) *)
+Definition float_ok_valid (c : cfg) : Prop := forall data k, data_ok c data -> float_ok c data k.
+
+Lemma float_ok_all_valid c : float_ok_all c -> float_ok_valid c.
+Proof. intros H data k _. apply H. Qed.
+
+Theorem search_contract_valid c data ix q :
+  idx_ok c -> float_ok_valid c -> data_ok c data -> build c data = Ok ix -> zlen (ix_segments ix) < 2 ^ 32 ->
+  q < sentinel c ->
+  exists a, search c ix q = Ok a /\
+    0 <= a_lo a <= lb data q /\ lb data q <= a_hi a <= zlen data /\
+    (In q data -> lb data q < a_hi a) /\ a_hi a - a_lo a <= 2 * c_eps c + 2.
+Proof.
+  intros Hc Hf Hd Hb Hs32 Hq.
+  destruct (search_contract_at c data ix q Hc Hd Hb Hs32 Hq (Hf _ _ Hd)) as (a & Es & H).
   exists a. split; [exact Es|]. tauto.
 Qed.
 
